@@ -170,6 +170,8 @@ pub fn default_transfer(method: u8, path: Vec<Vec<u8>>, kind: TKind) -> Transfer
         con: true,
         token_len: 4,
         token_vary: false,
+        b2_more: false,
+        stop_after: None,
         extra: vec![],
         kind,
         probe: Probe::None,
@@ -201,7 +203,7 @@ pub fn response_overhead(token_len: usize, opts: &[(u16, Vec<Vec<u8>>)], with_bl
     if with_block1 {
         p.add_option_as(CoapOption::Block1, BlockValue { num: 1, more: false, size_exponent: 2 });
     }
-    p.to_bytes_unlimited().map(|b| b.len()).unwrap_or(4)
+    crate::server::ref_encode(&p).len()
 }
 
 /// Budget drawn relative to an overhead so that the interesting region is hit.
